@@ -41,6 +41,34 @@ NAMES = ["a", "b", "c"]
 SCRIPTS = [[], ["l1"], ["l1", "l2"], ["l3"]]
 
 
+class _Limits:
+    """The implementation under test runs in this process: bound its time (5 s alarm) and its address space (a runaway
+    dependency list is reported as MemoryError / Timeout — an outcome the specification never allows — instead of taking
+    the machine down). The limits are in force only while the implementation runs (the Lean driver is started outside)."""
+
+    def __enter__(self):
+        import resource
+
+        self.res = resource
+        self.old_as = resource.getrlimit(resource.RLIMIT_AS)
+        cap = 6 * 1024 ** 3
+        hard = self.old_as[1]
+        resource.setrlimit(resource.RLIMIT_AS, (cap if hard == resource.RLIM_INFINITY else min(cap, hard), hard))
+
+        def on_alarm(signum, frame):
+            raise TimeoutError("the implementation did not return within 5 s")
+
+        self.old_sig = signal.signal(signal.SIGALRM, on_alarm)
+        signal.alarm(5)
+        return self
+
+    def __exit__(self, *exc):
+        signal.alarm(0)
+        signal.signal(signal.SIGALRM, self.old_sig)
+        self.res.setrlimit(self.res.RLIMIT_AS, self.old_as)
+        return False
+
+
 def _omit_parity(blocks, i) -> bool:
     """deterministic coin per (case, position): True = send an explicit empty list, False = leave the field out"""
     import zlib
@@ -52,20 +80,15 @@ def impl(blocks: List[Dict[str, Any]]) -> Dict[str, Any]:
 
     specs = [JobScriptSpecification(name=b["name"], script=list(b["script"]), depends_on=list(b["deps"])) for b in blocks]
 
-    def on_alarm(signum, frame):
-        raise TimeoutError("generate_script_block did not terminate within 5 s")
-
-    old = signal.signal(signal.SIGALRM, on_alarm)
-    signal.alarm(5)
     try:
-        return {"ok": list(generate_script_block(specs))}
+        with _Limits():
+            return {"ok": list(generate_script_block(specs))}
     except TimeoutError:
         return {"err": "Timeout"}
+    except MemoryError:
+        return {"err": "MemoryError"}
     except Exception as e:
         return {"err": type(e).__name__}
-    finally:
-        signal.alarm(0)
-        signal.signal(signal.SIGALRM, old)
 
 
 def impl_e2e(blocks: List[Dict[str, Any]]) -> Dict[str, Any]:
@@ -82,7 +105,13 @@ def impl_e2e(blocks: List[Dict[str, Any]]) -> Dict[str, Any]:
             del md["depends_on"]
         src = f"MetaData({src}, {md!r})"
     src = f"Select({src}, lambda e: e.Jets('AntiKt4EMTopoJets').Count())"
-    r = P.translate_functional("atlas", src)
+    try:
+        with _Limits():
+            r = P.translate_functional("atlas", src)
+    except TimeoutError:
+        return {"err": "Timeout"}
+    except MemoryError:
+        return {"err": "MemoryError"}
     if not r["ok"]:
         return {"err": r["error"]}
     lines = r["job_option_additions"]
